@@ -48,6 +48,8 @@ func verifNewCADS() *store.CADownloadStore {
 // verifSetup creates the download file and the Torrent for a symbolic blob of
 // n bytes cut into pieces of plen bytes.
 func verifSetup(n, plen int) *verifEnv {
+	// a write is accepted or rejected: a panic of the code under test is neither
+	verif.Option("panic_is_violation", 1)
 	verif.Note("crc32 collision exclusion: a payload whose CRC equals the metainfo piece sum is assumed to be the piece's bytes")
 	e := &verifEnv{cads: verifNewCADS(), blob: verif.Bytes("blob", n), plen: plen}
 	d, err := core.NewSHA256DigestFromHex(verifBlobName)
@@ -212,7 +214,7 @@ func VerifTorrentWriteSequence() {
 	e.check()
 	k := verif.Bound("writes", 2, 3)
 	for i := 0; i < k; i++ {
-		pi := verif.Len("piece_index", 0, e.npiece) // npiece itself: one past the end
+		pi := verif.Len("piece_index", -1, e.npiece) // -1 and npiece: just outside the torrent
 		e.write(pi, e.payload())
 		e.check()
 	}
@@ -247,17 +249,16 @@ func VerifTorrentWriteFromAnyState() {
 	}
 	e.check()
 	var pi int
-	if verif.Bool("index_beyond_end") {
-		pi = verif.Int("bad_index")
-		// negative indices: see FINDINGS.md / VerifFindingNegativePieceIndex
-		verif.Assume(pi >= e.npiece)
+	if verif.Bool("index_outside_torrent") {
+		pi = verif.Int("bad_index") // any int outside the torrent, negative included
+		verif.Assume(verif.Or(pi < 0, pi >= e.npiece))
 	} else {
 		if e.npiece == 0 {
 			return
 		}
 		pi = verif.Choice("piece_index", e.npiece)
 	}
-	wasVerified := pi < e.npiece && e.verified[pi]
+	wasVerified := pi >= 0 && pi < e.npiece && e.verified[pi]
 	err := e.write(pi, e.payload())
 	if wasVerified {
 		verif.Assert("rewrite-of-verified-piece-rejected", err != nil)
